@@ -70,6 +70,7 @@ pub fn lib_opts(tier: Tier, rng: &mut Rng) -> LibOpts {
     o.profile.max_blocks = tier.pick(14, 40);
     o.profile.max_depth = tier.pick(3, 4);
     o.profile.long_lists = tier.pick(1, 2);
+    o.foreign = true;
     o
 }
 
